@@ -29,7 +29,7 @@ def ref_stream(seed, n):
 
 def run(ctx):
     quick = ctx['tier'] == 'quick'
-    nstreams, slen, nraw = (6, 1300, 1500) if quick else (60, 4000, 40000)
+    nstreams, slen, nraw = (6 * ctx.get('boost', 1), 1300, 1500 * ctx.get('boost', 1)) if quick else (60, 4000, 40000)
     rc, out = vlib.harness_run(['rng', ctx['seed'], nstreams, slen, nraw], timeout=1200)
     if rc != 0: raise RuntimeError('harness rng failed: ' + out[-2000:])
     S = [l[2:] for l in out.split('\n') if l.startswith('S ')]
